@@ -185,6 +185,9 @@ def main(tier):
     for label, ov, k in configs:
         if tier == "quick":
             tasks.append((label, ov, "git", git_secs if k == 0 else small, 2))
+            if k == 0 or label in ("line-numbers=on", "view=sbs", "commit-style=raw"):
+                # triples (one hunk ending per kind): state that survives a whole section in between
+                tasks.append((label + "/triples", ov, "git", sections_for("git", K, ["minus"]), 3))
         else:
             tasks.append((label, ov, "git", git_secs if k <= 1 else small, 2))
             if k == 0:
